@@ -17,6 +17,12 @@ From Gluon Require Import Gen.FactsTokens Model.ImapTokens Model.ImapGrammar Mod
 Import ListNotations.
 Open Scope N_scope.
 
+(* The scanner classifies every byte value: ScanToken has no failing byte (such a failure is not a parser error, the
+   command reader would end and the connection close without BAD). *)
+Theorem C11_scanner_accepts_every_byte : forall b, b < 256 -> tok_of_byte b <> TT_Error.
+Proof. exact scanner_total. Qed.
+Print Assumptions C11_scanner_accepts_every_byte.
+
 (* Parser totality: with fuel = length of the input + 1 no loop of the parser runs out of fuel, i.e. every loop consumes a
    byte or stops at the EOF token.  (Fails to compile when IsQuotedChar accepts the EOF token: ParseQuoted then spins.) *)
 Theorem C11_parser_total : forall bs, parse_command (List.length bs + 1) bs <> POut.
